@@ -157,28 +157,34 @@ CLAIMED = {
  'C04': dict(
    text="PARTIAL proof (Lean 4) about the model of the update procedure (what zck_dl.c's main does: header fetch, scan, copy, "
         "reset, missing-range loop, truncate, validate) on top of the models of the parser, validator, copier, range builder and "
-        "download callbacks, for an ARBITRARY initial target, hash function, regex answers, limit and fragment size: every "
-        "transfer and the whole fetch loop keep every valid chunk valid with its bytes untouched and mark a chunk valid only "
-        "when the bytes at its extent hash to its index checksum (loop_sound, by induction over rounds from C05's theorems); "
-        "a loop that ends without error has no missing chunk; requests are zck_get_missing_range of the current marks (C10: "
-        "exactly extents of chunks marked missing).  NOT proved: that an honest server's response makes every requested chunk "
-        "valid (termination with target == B, exact request set).  That is decided on explored inputs: the procedure is run "
-        "in-process with the real library against a reference server with every request logged, and judged (target == B, "
-        "validation 1, requested bytes == extents of chunks neither verified-present nor available from A, none twice) over "
-        "file pairs x initial targets x limits {1,2,3,7,127,255,-1} x fragmentations, with the model run on the same inputs.",
-   design_ref="DESIGN.md section 7 C04",
+        "download callbacks.  SOUNDNESS IS PROVED for an ARBITRARY initial target, old file, hash function, regex answers, limit, "
+        "fragment size and dropped transfers (update_yields_B, from validateChecksums_sound, copyChunks_sound, loop_sound, "
+        "finish_sound, equal_or_collision): a run that ends without error and with every chunk marked valid leaves a target of "
+        "the prescribed length, with the parsed header in front and every chunk present - which IS the server's file B byte for "
+        "byte, or two different byte strings with the same chunk checksum are exhibited.  Requests are zck_get_missing_range of "
+        "the current marks (C10: exactly extents of chunks marked missing) and valid chunks are never modified.  NOT proved: "
+        "completeness - that the run does end that way with an honest server (termination, exact request set); the single-range "
+        "callback path is complete (C05 complete_single) but the multipart path and the loop's progress are decided on explored "
+        "inputs only: the procedure is run in-process with the real library against a reference server with every request "
+        "logged, and judged (target == B, validation 1, requested bytes == extents of chunks neither verified-present nor "
+        "available intact from A, none twice) over file pairs x initial targets x damaged old files x limits {1,2,3,7,127,255,-1} "
+        "x fragmentations x dropped-and-retried transfers, with the model run on the same inputs.",
+   design_ref="DESIGN.md section 7a C04",
    note="Partial: completeness/termination/exactness are checked (correspondence + predicate on the implementation), soundness is "
-        "proved. libcurl and zckdl's own plumbing (range back-off, --fail-no-ranges) are not modelled; the in-process procedure "
+        "proved (hypotheses: the old file has the same chunk checksum type; an empty dictionary entry has no stored bytes). "
+        "libcurl and zckdl's own plumbing (range back-off, --fail-no-ranges) are not modelled; the in-process procedure "
         "mirrors zckdl's call sequence.",
-   technique="Lean 4 proof (loop invariant 'valid => present' lifted from the callback theorems by induction over rounds) + "
+   technique="Lean 4 proof (invariant 'valid => present' established by the scan (induction over the index with exact-or-EOF read "
+             "position), kept by copy, reset, every transfer and round; extent-wise equality of files with a running index) + "
              "differential correspondence of the whole procedure with logged requests"),
  'C11': dict(
    text="PARTIAL proof (Lean 4): the only state surviving an interruption is the target file, and the model of the procedure and "
         "every C04/C05/C09 theorem quantify over an ARBITRARY initial target; stated for crash states (the target after k complete "
         "writes of any write trace and a (k+1)-th cut after j bytes): the restart marks a chunk valid only if the bytes at its "
         "extent hash to its checksum (no partially written chunk is trusted), chunks the restart finds valid are never modified by "
-        "later transfers, the scan trusts a chunk exactly when all its stored bytes are there and hash to the checksum.  NOT proved "
-        "(as C04): convergence to B.  Decided on explored inputs: the real library is run in-process with the k-th write(2) on the "
+        "later transfers, the scan trusts a chunk exactly when all its stored bytes are there and hash to the checksum; and C04's "
+        "update_yields_B holds from any crash state: a restart that ends without error and with every chunk valid has produced B "
+        "(or a collision).  NOT proved (as C04): that the restart does end that way.  Decided on explored inputs: the real library is run in-process with the k-th write(2) on the "
         "target cut short (none/half/all bytes) and the run abandoned, for EVERY k of small scenarios and for chains of 2-5 "
         "interruptions; the restart is judged from the target as the interruption left it: converges to B, its scan trusts only "
         "verified-present chunks, its requests are exactly the chunks not present and not available from A.",
